@@ -245,7 +245,8 @@ func (e *DocumentError) String() string {
 	}
 	if e.file != nil {
 		filename := e.file.Name()
-		if e.hasIndex {
+		// The source line can be shown only for a position inside the file.
+		if e.hasIndex && int(e.index) < len(e.file.Content()) {
 			return fmt.Sprintf(`%s: %s
 	in line %d on file %s
 	> %s
